@@ -491,7 +491,7 @@ fn generate(ctx: &mut Ctx) -> Vec<Value> {
             let pick = rng.below(10);
             let (version, rsync) = if pick < 6 {
                 let (case, v) = rng.pick(&kid.faulty).clone();
-                if case.stale != Policy::Reject { (kid.v1, None) } else {
+                if case.stale != Policy::Reject || !case.cleanup { (kid.v1, None) } else {
                     sig.push_str(&format!("{},", case.label));
                     (v, case.rsync.clone())
                 }
